@@ -261,7 +261,19 @@ def independence_check(res, known, args):
     for s in tab["model_mutations"]:
         res.violation({"kind": "proof-obligation", "what": "a generator statement writes memory of the parsed model: %s (%s) in %s, %s:%d; theorem C14_no_generator_statement_writes_the_model no longer checks"
                        % (s["text"], s["kind"], s["func"], s["file"], s["line"]), "theorem": "C14_no_generator_statement_writes_the_model", "site": s}, found=False)
-    hook = core.Hook()
+    class FreshHook:
+        """every request in a fresh process: process-wide state (package variables, library
+        configuration) must not carry over from one generator run to the next measurement"""
+        def ask(self, req):
+            h = core.Hook()
+            try:
+                return h.ask(req)
+            finally:
+                h.close()
+
+        def close(self):
+            pass
+    hook = FreshHook()
     rng = random.Random(res.seed)
     progs = det_programs(res.tier, res.seed)
     if res.tier == "quick":
@@ -308,7 +320,7 @@ def independence_check(res, known, args):
             samples_out.append({"program": pid, "sequences": [" ".join(s) for s in seqs[:3]], "all_equal_to_alone": True})
     hook.close()
     res.coverage.update({"programs": compiled, "evaluations": n, "distinct_nontrivial": n,
-                         "rule": "per program: every generator alone on a fresh parse, then sequences over ONE parsed model (CLI order, reverse, random orders/subsets); each step's files compared with the alone run and the model dump compared before/after each step",
+                         "rule": "per program: every generator alone in a FRESH PROCESS, then sequences over ONE parsed model (each sequence in a fresh process) (CLI order, reverse, random orders/subsets); each step's files compared with the alone run and the model dump compared before/after each step",
                          "samples": samples_out})
 
 
